@@ -337,8 +337,82 @@ def rule_R02_5(ctx):
     return r
 
 
+def rule_R02_6(ctx, rule_id="R02.6"):
+    """Pre-sizing an allocation from a Seed integer (rather than from the
+    length of an existing container) aborts with `capacity overflow` for large
+    values even when the resulting container would be small or empty."""
+    import guards
+    prog = ctx.prog
+    r = RuleResult(rule_id, "allocation sizes come from existing lengths or "
+                   "constants, never straight from script integers",
+                   "`with_capacity(n)` with n computed from a script integer "
+                   "panics (capacity overflow) for large n")
+    n = 0
+    for f in prog.hand_fns():
+        if f.from_expansion:
+            continue
+        for c in f.calls():
+            if c.is_ptr:
+                continue
+            name = (c.res or "").split("::")[-1]
+            if name not in ("with_capacity", "reserve", "reserve_exact", "resize", "resize_with") \
+                    or not (c.res or "").startswith(("std::vec::Vec", "std::string::String", "std::collections::")):
+                continue
+            n += 1
+            size_arg = c.args[0] if name == "with_capacity" else (c.args[1] if len(c.args) > 1 else None)
+            if size_arg is None:
+                continue
+            t = guards.var_of(f, size_arg)
+            srcs = locks_sources(f, size_arg)
+            from_int = [x for x in srcs if x]
+            r.inst("%s: %s(%s)" % (f.path, name, guards.term_str(t)))
+            if from_int:
+                r.fail("%s | allocation sized from a script integer" % f.path,
+                       "%s calls %s with a size derived from %s, an integer "
+                       "supplied by the script; a large value aborts the "
+                       "interpreter" % (f.path, name, from_int[0]), where=c.loc)
+            else:
+                r.ok()
+    if not n:
+        r.ok()
+    return r
+
+
+def locks_sources(f, operand):
+    """Calls in the backward slice of an operand that yield script integers
+    (payloads of functions returning i64, or i64 arithmetic helpers)."""
+    out = []
+    seen = set()
+    st = []
+    if mir.is_place_operand(operand):
+        st.append(mir.op_place(operand)[0])
+    while st:
+        l = st.pop()
+        if l in seen or (1 <= l <= f.arg_count):
+            continue
+        seen.add(l)
+        ty = f.locals[l] if l < len(f.locals) else ""
+        for (bb, idx, kind, payload) in f.defs().get(l, []) + f.partial_defs().get(l, []):
+            if kind == "call":
+                c = payload
+                name = (c.res or "").split("::")[-1]
+                if name in ("len", "count", "capacity"):
+                    continue        # an existing length: fine
+                if "i64" in (c.dstty or "") or any(a in ("i64", "&i64") for a in c.argtys):
+                    out.append(c.res)
+                for a in c.args:
+                    if mir.is_place_operand(a):
+                        st.append(mir.op_place(a)[0])
+            elif kind == "rv":
+                for p in mir.rvalue_places(payload):
+                    st.append(p[0])
+        if ty in ("i64", "&i64"):
+            out.append("a local of type i64")
+    return out
+
+
 def run(ctx):
-    rs = [rule_R02_1(ctx), rule_R02_2(ctx)]
+    rs = [rule_R02_1(ctx), rule_R02_2(ctx), rule_R02_6(ctx)]
     import units
     rs.append(units.rule_units(ctx, "R02.3"))
     import sites
